@@ -972,4 +972,29 @@ theorem aupdateAll_spec (lt : Nat → Nat → Bool) (d : Nat) (hd : 0 < d) (s : 
   rw [← e]
   simp
 
+
+/-- **reserve(n)**: the handle table only grows, so the state stays consistent and the heap is untouched
+(a `resize` that could shrink `handles_` would drop the handles of stored keys `≥ n`: not provable then) -/
+theorem areserve_spec (s : AH) (hok : AOk s) (n : Nat) : AOk (s.reserve n) ∧ (s.reserve n).heap = s.heap := by
+  unfold AH.reserve
+  split
+  · refine ⟨?_, rfl⟩
+    have hget : ∀ (x pos : Nat), (growH s.handles n)[x]? = some (some pos) ↔ s.handles[x]? = some (some pos) := by
+      intro x pos
+      rw [growH_get]
+      by_cases h1 : x < s.handles.size
+      · simp [h1]
+      · have : s.handles[x]? = none := Array.getElem?_eq_none (by omega)
+        simp [h1, this]
+    constructor
+    · intro i hi
+      have := hok.inb i hi
+      show (⟨s.heap, rfl⟩ : Vector Nat s.heap.size)[i] < (growH s.handles n).size
+      rw [growH_size]; omega
+    · intro i hi
+      exact (hget _ i).mpr (hok.fwd i hi)
+    · intro key pos hk
+      exact hok.bwd key pos ((hget key pos).mp hk)
+  · exact ⟨hok, rfl⟩
+
 end TlxVerif.C13
